@@ -1,4 +1,5 @@
 import A5.Lemmas.BoundarySkel
+import A5.Lemmas.PentagonConvex2
 import Mathlib.Tactic.Linarith
 import Mathlib.Algebra.Order.Field.Basic
 import Mathlib.Algebra.Order.Field.Rat
@@ -261,5 +262,36 @@ example : ∃ l : ℚ, unwrapLonG (180 : ℚ) 360 3 550 0 = .ok l ∧ -180 ≤ l
 
 /-- world aliases (ids without marker bit, e.g. 1) have the empty boundary too -/
 example : cellToBoundary 1 false none = .ok [] := ring_world 1 false none (by decide)
+
+/-! ## the planar ring: counter-clockwise, convex, centre inside (exact arithmetic on the runtime constants) -/
+
+open A5.PG A5.HilbertLocate in
+/-- `planar_ring_ccw_convex_centre_inside`.  The planar form of "counter-clockwise orientation, and the cell's reported
+centre inside it", for the pentagon of EVERY anchor (any `k`, any integer offset, any `±1` flip pair), after scaling by
+any `s > 0` (the `2^-res` of `get_pentagon_vertices`) and any matrix of positive determinant (the quintant rotation
+`(c, -s, s, c)`, whatever the rounded `cos`/`sin` are), in exact rational arithmetic on the constants the library
+computes at start-up: the trapezoid sum is positive (so `PentagonShape::new` keeps the vertex order), the pentagon is
+strictly convex, and `get_center` lies strictly on the inner side of all five edges - with explicit margins
+(0.09 resp. 0.096 times `det·s²`).  `getPentagonVertices_tie` ties `placedQ` to the Float model (same expression). -/
+theorem planar_ring_ccw_convex_centre_inside (a : Anchor) (hF : IsFlip a.flips) (s : Rat) (hs : 0 < s)
+    (m : Rat × Rat × Rat × Rat) (hd : 0 < detG m) :
+    0 < areaG 0 (placedQ a s m) ∧ polyNewG 0 (placedQ a s m) = placedQ a s m ∧
+    ConvexBy 0 (detG m * (s * s) * (9 / 100)) (placedQ a s m) ∧
+    InsideBy 0 (detG m * (s * s) * (96 / 1000)) (placedQ a s m) (centreG 0 5 (placedQ a s m)) := by
+  obtain ⟨_, h2, h3, _, h5, h6⟩ := placedQ_facts a hF s hs m hd
+  exact ⟨h2, h3, h6, h5⟩
+
+open A5.PG in
+/-- the same for the quintant triangle (resolution-1 cells), under any matrix of positive determinant -/
+theorem planar_triangle_ccw_centre_inside (m : Rat × Rat × Rat × Rat) (hd : 0 < detG m) :
+    0 < areaG 0 (transformG m triQ) ∧ polyNewG 0 (transformG m triQ) = transformG m triQ ∧
+    InsideBy 0 (detG m * (18 / 100)) (transformG m triQ) (centreG 0 3 (transformG m triQ)) := by
+  obtain ⟨h1, h2, h3, _⟩ := triQ_transform m hd
+  exact ⟨h1, h2, h3⟩
+
+/-- non-vacuity: a concrete anchor, scale 1/8, a 3-4-5 rotation -/
+example : 0 < PG.areaG 0 (PG.placedQ ⟨1, (3, 0), (1, -1)⟩ (1 / 8) (3 / 5, -(4 / 5), 4 / 5, 3 / 5)) :=
+  (planar_ring_ccw_convex_centre_inside ⟨1, (3, 0), (1, -1)⟩ (Or.inr (Or.inl rfl)) (1 / 8) (by decide +kernel)
+    (3 / 5, -(4 / 5), 4 / 5, 3 / 5) (by decide +kernel)).1
 
 end A5.C11
